@@ -278,6 +278,33 @@ def structural(rep, prog):
             raise common.Infra("C19.s2: float sample is computed through constructs the polynomial normal form cannot see (%s); rule needs re-confirmation" % opaque[:2])
         rep.violate("C19.s2", "s2|affine", uf.where(), "float sample is not the affine map unit*(end-start)+start of unit = from_bits(..) - 1.0 (got polynomial %s)" % got, config=cfg)
 
+    # ---- s6 integer sample: start + rem_euclid(bits, end - start)
+    ui = prog.body("retrofire_core::<math::rand::Uniform<i32> as math::rand::Distrib>::sample")
+    from . import symalg as S, absint as A
+    from fractions import Fraction
+
+    def m_rem(it, args, callee, depth):
+        return ("symop", "rem_euclid", A.deref_all(it, args[0]), A.deref_all(it, args[1]))
+
+    def m_bits(it, args, callee, depth):
+        return ("sym", "bits")
+    it = S.interp(prog, models={"$::rem_euclid": m_rem, "Xorshift64::next_bits": m_bits})
+    RANGE = "core::ops::range::Range"
+    u = ("adt", "retrofire_core::math::rand::Uniform", "Uniform", [("adt", RANGE, "Range", [("sym", "S"), ("sym", "E")])])
+    ok6 = False
+    try:
+        r = it.call_body(ui, [S.ref_to(u), A.UNKNOWN])
+        if isinstance(r, tuple) and r[0] == "symop" and r[1] == "Add":
+            for rem, off in ((r[2], r[3]), (r[3], r[2])):
+                if isinstance(rem, tuple) and rem[0] == "symop" and rem[1] == "rem_euclid" and off == ("sym", "S"):
+                    width = S.to_poly(rem[3])
+                    ok6 = width == {("E",): Fraction(1), ("S",): Fraction(-1)} and "bits" in repr(rem[2])
+    except (A.Undecided, A.Panic, S.NotPolynomial) as e:
+        raise common.Infra("C19.s6: Uniform<i32>::sample could not be evaluated symbolically (%s)" % e)
+    rep.inst("C19.s6", "Uniform<i32>::sample = start + rem_euclid(bits, end - start) (so start <= sample <= end - 1 by rem_euclid's range [0, width)): %s" % ok6, config=cfg)
+    if not ok6:
+        rep.violate("C19.s6", "s6|int-range", ui.where(), "integer sample is not start + rem_euclid(generator bits, end - start)", config=cfg)
+
     # ---- s3 composite draws
     pair = prog.body("retrofire_core::<(D, E) as math::rand::Distrib>::sample")
     psl = T.Slicer(pair)
